@@ -31,7 +31,7 @@ theorem partition_fifo_at_await (cfg : Cfg) (s : St) (h : Reachable cfg s)
   have := partition_fifo cfg s h
   cases hrx : s.rx
   case taken b tw fw o => exact absurd hrx (hr b tw fw o)
-  all_goals simp_all [Rx.takenBatch]
+  all_goals simp_all
 
 /-- With distinct items (the harness uses unique ids) positions are identities: no item is handed over twice as a
     first attempt, none is both delivered and still pending, none is both delivered/pending and truncated. -/
